@@ -65,6 +65,47 @@ def assigns_global_function(case, params):
     return re.search(r"\(set! f\d+ \(lambda", txt) is not None
 
 
+def sets_global(e, names):
+    if isinstance(e, tuple):
+        if e and e[0] == "set" and e[1] in names:
+            return True
+        return any(sets_global(x, names) for x in e[1:])
+    if isinstance(e, list):
+        return any(sets_global(x, names) for x in e)
+    return False
+
+
+def module_cases(ck, g, n):
+    """Programs whose definitions live in a module file required by the main program (exercises cross-module
+    inlining): the reference meaning is the same program with the definitions in the first unit."""
+    import os
+    out = []
+    d = os.path.join(ck.work, "mods")
+    os.makedirs(d, exist_ok=True)
+    tries = 0
+    pending = list(lang.MODULE_CORPUS)
+    n += len(pending)
+    while len(out) < n and tries < n * 6:
+        tries += 1
+        if pending:
+            defs, exprs = pending.pop(0)
+            forms = defs + exprs
+        else:
+            forms = g.program(nforms=ck.rng.choice([6, 10, 14]))
+            defs = [f for f in forms if f[0] == "define"]
+            exprs = [f for f in forms if f[0] != "define"]
+        names = [f[1] for f in defs]
+        if not defs or not exprs or sets_global(forms, set(names)):
+            continue
+        path = os.path.join(d, "m%d_%d.scm" % (ck.seed, len(out)))
+        with open(path, "w") as fh:
+            fh.write(lang.unit_to_steel(defs) + "\n(provide " + " ".join(names) + ")\n")
+        engine_units = ['(require "%s")' % path] + [lang.to_steel(e) for e in exprs]
+        reference = [defs] + [[e] for e in exprs]
+        out.append((engine_units, reference))
+    return out
+
+
 def run(ck):
     ck.cov["trusted_base"] = [
         "Coq 8.16.1 kernel, coqc; vm_compute for model evaluation",
@@ -78,7 +119,7 @@ def run(ck):
     ck.harness_build(["evalsrv"])
     g = lang.Gen(ck.rng)
     nh, np_ = (16, 24) if ck.tier == "quick" else (300, 500)
-    items = [g.history() for _ in range(nh)] + [[g.program()] for _ in range(np_)]
+    items = [[p] for p in lang.CORPUS] + [g.history() for _ in range(nh)] + [[g.program()] for _ in range(np_)]
     configs = all_configs()
     if ck.tier == "quick":
         base = [configs[0], {"STEEL_JIT": "false"}, configs[-1] if False else
@@ -112,6 +153,23 @@ def run(ck):
                         "engine_default_config": e0, "reference": m2}
                 ck.failing_input("configuration %s: engine and reference differ (default configuration gives %s)"
                                  % (name, "the same" if e0 == e2 else "another result"), case, tag="cfg")
+    # ---- definitions in a required module (cross-module inlining)
+    mods = module_cases(ck, g, 10 if ck.tier == "quick" else 200)
+    mmodel = ck.coq_eval(lang.COQ_HEADER, [lang.model_expr(ref) for _, ref in mods], shard=20)
+    for env in chosen:
+        eng = ck.eval_cases([u for u, _ in mods], fresh=True, env=env, batch=10, timeout_per_batch=90)
+        name = cfg_name(env)
+        for (units, ref), e_raw, m in zip(mods, eng, mmodel):
+            ck.cov["evaluations"] += 1
+            if "FUEL" in m:
+                continue
+            e = c01.engine_render(e_raw)
+            nontrivial.add((m, name, "module"))
+            if e != m:
+                case = {"history": units, "module_file": open(units[0].split('"')[1]).read(), "config": env, "engine": e, "reference": m}
+                ck.failing_input("configuration %s: a program with its definitions in a required module differs from the reference" % name,
+                                 case, tag="mod")
+    ck.cov["module_programs"] = len(mods)
     for h, m in list(zip(items, model))[:3]:
         ck.sample({"history": [lang.unit_to_steel(u) for u in h][:3], "reference": m[:300]})
     ck.cov["distinct_nontrivial"] = len(nontrivial)
